@@ -1,0 +1,6 @@
+//go:build !verif
+
+package rosmar
+
+// verifPoint is a no-op unless built with the `verif` tag (see verif_on.go).
+func verifPoint(string, ...any) {}
